@@ -89,25 +89,44 @@ def stream_key(instrs):
     return h.hexdigest()
 
 
+def _opt_on(st):
+    return st.get("ss") is True or st.get("ss") == 1 or (st.get("ss") is None and st["v"] >= 9)
+
+
+def _fp_on(st):
+    return st.get("fp") is True or st.get("fp") == 1 or (st.get("fp") is None and st["v"] >= 8)
+
+
 def make_entry(eid, prog, results, cx, dedupe=True):
-    """One batch entry from a recipe and its compile results.  Returns (entry, texts_meta)."""
+    """One batch entry from a recipe and its compile results.  Returns (entry, texts_meta).
+    Texts compiled without scratch-slot optimisation come first; an optimised text names (cmp) the text of the
+    same version / frame-pointer / constant-assembly setting compiled without it (differential part, C03)."""
     texts = []
     seen = {}
     meta = []
-    for r in results:
-        if "teal" not in r:
-            continue
-        te = batch.text_entry(prog, r["teal"], settings_tag(r["st"]))
+    index_of = {}           # (v, fp_eff, ac, mode, ss_eff) -> 1-based text index
+    ordered = sorted((r for r in results if "teal" in r), key=lambda r: (_opt_on(r["st"]), r["st"]["v"]))
+    for r in ordered:
+        st = r["st"]
+        te = batch.text_entry(prog, r["teal"], settings_tag(st))
         key = stream_key(te["teal"])
+        gkey = (st["v"], _fp_on(st), bool(st.get("ac")), st.get("mode"))
         if dedupe and key in seen:
             meta[seen[key]]["tags"].append(te["tag"])
+            index_of.setdefault(gkey + (_opt_on(st),), seen[key] + 1)
             continue
         seen[key] = len(texts)
+        index_of.setdefault(gkey + (_opt_on(st),), len(texts) + 1)
+        cmpk = 0
+        if _opt_on(st):
+            cmpk = index_of.get(gkey + (False,), 0)
+            if cmpk == len(texts) + 1:
+                cmpk = 0
         texts.append({"teal": [{k: v for k, v in ins.items() if k != "ln"} for ins in te["teal"]],
-                      "R": te["R"], "tag": te["tag"]})
-        meta.append({"tags": [te["tag"]], "problems": te["problems"], "text": r["teal"], "st": r["st"]})
+                      "R": te["R"], "tag": te["tag"], "cmp": cmpk})
+        meta.append({"tags": [te["tag"]], "problems": te["problems"], "text": r["teal"], "st": st})
     entry = {"id": eid, "recipe": {"main": prog["main"], "rt": prog.get("rt", [])}, "cx": cx, "texts": texts,
-             "vars": prog.get("vars", [])}
+             "vars": prog.get("vars", []), "req": sorted(v["slot"] for v in prog.get("vars", []) if v.get("slot", -1) >= 0)}
     return entry, meta
 
 
